@@ -135,6 +135,9 @@ P = {
          'have the same (task name, key) (assign_spec, shared_iff_same_loc, regOK_after); a member chain creates the same tasks, in the same order, with the same parameter values, '
          'first-pass inputs and keys as the standalone chain of its config, whatever registry it is built over (recreate_sim, '
          'created_tasks_registry_independent, multichain_member_eq_standalone: simulation up to object identity, by induction on the recursion fuel); '
+         'name mode (BuildNM.buildMulti, registry keyed by (task name, repr_name_without_namespace)): every task of every member is declared by a config of that member and its object was made '
+         'by a member config with the same repr_name_without_namespace, whose name is its key (nm_multichain_objects); if such configs have equal names every member task has the key of its own '
+         'declaring config (nm_multichain_member_keys); a second member config with the same name is refused (dupChain, both modes); '
          'MultiChain.force = Chain.force on every member (multichain_force_fans_out); finding K6 is proved on its witness in the model '
          '(every member config builds standalone, the MultiChain of the two fails). Correspondence: lists of 2-5 configs built as MultiChain and '
          'standalone on the real code vs the model (tasks, parameters, inputs, keys, object identity matrix across chains, incl. the mutation '
@@ -310,7 +313,9 @@ P = {
          'defaults filled minus ignored names (sorted by name); hence same_binding_same_key for all spellings, ignored_never_matter, '
          'different_binding_different_key (for an encoder injective on sorted dictionaries) and different_binding_different_key_json — the same for '
          'json.dumps(sort_keys=True) itself, whose injectivity is PROVED (Json.dumpsRaw_injective: prefix code over the ensure_ascii escapes incl. '
-         'surrogate pairs, separators and nested containers; encJ_injective) —, method_gets_binding; '
+         'surrogate pairs, separators and nested containers; encJ_injective) —, method_gets_binding; methods with a **kwargs catch-all: key_is_binding_kw (the serialised dictionary is the '
+         'binding of the named parameters plus the extra keyword arguments, minus ignored names), different_extra_different_key, keyword_order_never_matters, '
+         'catchall_param_inert; '
          'methods_and_versions_disjoint (sub-cache name determines method and version) and, through M-Cache, no shared file; '
          'force_cache / only_cache / store_cache_value stated against the C14 theorems. Correspondence: generated signatures (0-5 '
          'parameters, mixed kinds), 2-6 spellings per binding incl. reordered nested mappings, perturbed bindings, confusable sibling '
@@ -319,7 +324,7 @@ P = {
          'literal), sub-cache name, result, method-call count, entry count, and Lean valid/binding against inspect.signature.bind + '
          'apply_defaults; dictionary oracle over Python\'s binding.',
     note='argument values are JSON values in canonical form with number tokens as Python prints them (non-empty, free of structural characters, not a '
-         'literal) — the remaining hypothesis of the injectivity theorem; that the model text IS json.dumps is tied by the literal key comparison; *args/**kwargs signatures, custom key functions and '
+         'literal) — the remaining hypothesis of the injectivity theorem; that the model text IS json.dumps is tied by the literal key comparison; *args signatures, custom key functions and '
          'parameters named like the control keywords or `obj` are outside the domain; outside the domain the code does not reject calls '
          'Python would reject (surplus positionals are bound to keyword-only parameters or dropped) — modelled and compared as is',
     technique='Lean 4 proof (loop invariant as dictionary lookup, permutation/sorting lemmas) + differential correspondence over spellings',
